@@ -5705,8 +5705,7 @@ func (c *linkerContext) generateChunkJS(chunkIndex int, chunkWaitGroup *sync.Wai
 	// "use strict" directive below because some people use the banner to
 	// emit a hashbang, which must be the first thing in the file.
 	if len(c.options.JSBanner) > 0 {
-		prevOffset.AdvanceString(c.options.JSBanner)
-		prevOffset.AdvanceString("\n")
+		prevOffset.AdvanceString(c.options.JSBanner + "\n")
 		j.AddString(c.options.JSBanner)
 		j.AddString("\n")
 		newlineBeforeComment = true
@@ -6278,9 +6277,8 @@ func (c *linkerContext) generateChunkCSS(chunkIndex int, chunkWaitGroup *sync.Wa
 	newlineBeforeComment := false
 
 	if len(c.options.CSSBanner) > 0 {
-		prevOffset.AdvanceString(c.options.CSSBanner)
+		prevOffset.AdvanceString(c.options.CSSBanner + "\n")
 		j.AddString(c.options.CSSBanner)
-		prevOffset.AdvanceString("\n")
 		j.AddString("\n")
 	}
 
